@@ -1,7 +1,7 @@
 (* C03 — name references follow every rename and never change their referent.
    Property theorems only. Every theorem is closed by [exact] of a lemma proved elsewhere
    (Res/NameRefProofs.v, Res/RenameProofs.v, Res/C03Facts.v). *)
-From KV Require Import Res.BuildRefs Res.FsFacts Res.CsvFacts Res.NameRefProofs Res.RenameProofs Res.C03Facts.
+From KV Require Import Res.BuildRefs Res.FsFacts Res.CsvFacts Res.NameRefProofs Res.RenameProofs Res.RewriteProofs Res.C03Facts.
 From KV Require Import Gen.NameRefRules Gen.FieldSpecs.
 
 (* ================= obligations over the tables regenerated from /repo ================= *)
@@ -183,6 +183,69 @@ Theorem C03_external_no_candidate :
     select_referral x old cands identical = Ok None.
 Proof. exact select_none. Qed.
 Print Assumptions C03_external_no_candidate.
+
+(* ================= the whole transformer ================= *)
+
+(* FixBackReferences (all rows of the generated table, all referrers) only rewrites documents, and never
+   the fields a resource is identified by: the resources come out in the same number and order, each with
+   the apiVersion, kind, metadata.name, metadata.namespace and rename history it had before.  "The
+   referent's final name" is therefore its name just before FixBackReferences. *)
+Theorem C03_transform_preserves_identity :
+  forall cs nonstr rules m m',
+    effective_rules gen_gvk_order_first gen_gvk_order_last gen_nameref_raw = Ok rules ->
+    nameref_transform cs nonstr rules m = Ok m' -> Forall2 same_identity m m'.
+Proof. exact gen_transform_identity. Qed.
+Print Assumptions C03_transform_preserves_identity.
+
+(* What the whole transformer (all rows, all referrers, in table order) can do to ANY scalar of ANY
+   document, read at an address that does not pass through a key "namespace" (setMapping writes the
+   referent's namespace there): the scalar is still there, and its text followed a CHAIN of renames --
+   each link goes from a text to the current name of a resource that once had exactly that text as its
+   name.  (A chain of length > 1 is the rewrite cascade of C03_no_retarget_whole_refuted.) *)
+Theorem C03_no_retarget_chain :
+  forall cs nonstr rules m m' C,
+    effective_rules gen_gvk_order_first gen_gvk_order_last gen_nameref_raw = Ok rules ->
+    mapM (view cs) m = Ok C -> no_empty_prev C = true ->
+    nameref_transform cs nonstr rules m = Ok m' ->
+    forall i r r' a t s v,
+      nth_error m i = Some r -> nth_error m' i = Some r' ->
+      no_ns_key a -> get_addr a (r_node r) = Some (Scalar t s v) ->
+      exists t' s' v', get_addr a (r_node r') = Some (Scalar t' s' v') /\ chain C v v'.
+Proof. exact gen_whole_chain. Qed.
+Print Assumptions C03_no_retarget_chain.
+
+(* References to objects outside the build, whole transformer: a text that no resource of the map ever
+   had as a name is left exactly as it is, wherever it stands. *)
+Theorem C03_external_untouched_whole :
+  forall cs nonstr rules m m' C,
+    effective_rules gen_gvk_order_first gen_gvk_order_last gen_nameref_raw = Ok rules ->
+    mapM (view cs) m = Ok C -> no_empty_prev C = true ->
+    nameref_transform cs nonstr rules m = Ok m' ->
+    forall i r r' a t s v,
+      nth_error m i = Some r -> nth_error m' i = Some r' ->
+      no_ns_key a -> get_addr a (r_node r) = Some (Scalar t s v) ->
+      (forall c, In c C -> prev_name_matches v c = false) ->
+      exists t' s', get_addr a (r_node r') = Some (Scalar t' s' v).
+Proof. exact gen_whole_external. Qed.
+Print Assumptions C03_external_untouched_whole.
+
+(* Whole transformer, unambiguous names: when everything that was ever called [v] is called [new] now,
+   and so is everything that was ever called [new] (no cascade possible), a field holding [v] ends as
+   [v] or as [new] -- it cannot end up designating anything else. *)
+Theorem C03_refs_follow_closed :
+  forall cs nonstr rules m m' C,
+    effective_rules gen_gvk_order_first gen_gvk_order_last gen_nameref_raw = Ok rules ->
+    mapM (view cs) m = Ok C -> no_empty_prev C = true ->
+    nameref_transform cs nonstr rules m = Ok m' ->
+    forall i r r' a t s v,
+      nth_error m i = Some r -> nth_error m' i = Some r' ->
+      no_ns_key a -> get_addr a (r_node r) = Some (Scalar t s v) ->
+      forall new,
+        (forall c, In c C -> prev_name_matches v c = true -> c_name c = new) ->
+        (forall c, In c C -> prev_name_matches new c = true -> c_name c = new) ->
+        exists t' s' v', get_addr a (r_node r') = Some (Scalar t' s' v') /\ (v' = v \/ v' = new).
+Proof. exact gen_whole_closed. Qed.
+Print Assumptions C03_refs_follow_closed.
 
 (* ================= what the faithful model refutes (each confirmed on the implementation) ================= *)
 
